@@ -11,6 +11,7 @@ import (
 	"io"
 	"net/http"
 	"net/url"
+	"strconv"
 	"strings"
 	"testing"
 
@@ -21,7 +22,7 @@ import (
 	"github.com/flamego/flamego/verifharness/internal/gen"
 )
 
-const rule = "case = request method in {GET, HEAD, POST, PUT, DELETE, OPTIONS, \"\"} x an underlying writer (with or without http.Flusher, with or without io.ReaderFrom; sometimes itself a fresh flamego ResponseWriter around the spy; one case in five: the writer is the one a handler gets from its request context, after an earlier request on the same application registered 0..2 functions on its own response and wrote nothing) x a history of 1..14 operations over {WriteHeader(100..999; with an underlying writer that refuses other codes by panicking also 0, 99, 1000, -1), Write / io.WriteString / io.Copy of 0..64 bytes or of 0.5..70 KB (optionally cut short by the underlying writer with an error), Flush, Before(hook)}; hooks set a header, read Status()/Written(), log themselves and sometimes register one more function while they run. " +
+const rule = "case = request method in {GET, HEAD, POST, PUT, DELETE, OPTIONS, \"\"} x an underlying writer (with or without http.Flusher, with or without io.ReaderFrom; sometimes itself a fresh flamego ResponseWriter around the spy; one case in five: the writer is the one a handler gets from its request context, after an earlier request on the same application registered 0..2 functions on its own response and wrote nothing) x a history of 1..14 operations over {WriteHeader(100..999; with an underlying writer that refuses other codes by panicking also 0, 99, 1000, -1), Write / io.WriteString / io.Copy of 0..64 bytes or of 0.5..70 KB (optionally cut short by the underlying writer with an error), Flush, Before(hook)}; hooks set a header, read Status()/Written(), log themselves and sometimes register one more function while they run; a Content-Length response header may be set at any point. Second check: responses of 1..260 writes of 1..32 MiB into an underlying writer that only counts (totals around 2^31 and 2^32 bytes): Size() equals what was forwarded. " +
 	"Oracle: a state-machine model written from the statement, compared after every step (Status, Written, Size, return values of Write) together with invariants over the log of calls the underlying writer received (<=1 WriteHeader, before every Write/Flush; hooks registered before the trigger ran exactly once, in reverse order, before that WriteHeader, and saw Status()==0; later hooks never run). " +
 	"non-trivial = a history with >=2 hooks and a trigger, or a second WriteHeader / an implicit 200, or a body write on HEAD, or a short write; distinct by case text"
 
@@ -293,6 +294,10 @@ func checkCase(c Case) (out evid.Outcome) {
 				} else if n != wantN || (err != nil) != wantErr {
 					return fail(out, "write-result", "%s: Write returned (%d, %v), the underlying writer took %d bytes (error=%v)", desc, n, err, wantN, wantErr)
 				}
+			case "cl":
+				// a response header, as handlers that know the length of what they
+				// (would) send set it: no operation of the writer, nothing changes
+				w.Header().Set("Content-Length", fmt.Sprint(op.V))
 			case "f":
 				if mStatus == 0 {
 					second = true
@@ -497,7 +502,9 @@ func genCase(t *rapid.T) Case {
 	n := rapid.IntRange(1, 14).Draw(t, "nops")
 	hook := 0
 	for i := 0; i < n; i++ {
-		switch k := rapid.IntRange(0, 9).Draw(t, "op"); {
+		switch k := rapid.IntRange(0, 10).Draw(t, "op"); {
+		case k == 10:
+			c.Ops = append(c.Ops, Op{K: "cl", V: []int{11, 1234, 0, 70000}[rapid.IntRange(0, 3).Draw(t, "clv")]})
 		case k < 2:
 			code := rapid.IntRange(100, 999).Draw(t, "code")
 			if c.Strict && rapid.IntRange(0, 2).Draw(t, "badcode") == 0 {
@@ -530,8 +537,102 @@ func TestProp(t *testing.T) {
 	})
 }
 
+// Volume is a response of many large writes: the size counter has to follow the
+// bytes forwarded beyond 2^31 and 2^32 as well.
+type Volume struct {
+	Method string `json:"method"`
+	Chunk  int    `json:"chunk_bytes"`
+	Writes int    `json:"writes"`
+	Tail   int    `json:"last_write_bytes"`
+}
+
+// sink is an underlying writer that only counts.
+type sink struct {
+	h      http.Header
+	codes  []int
+	bytes  int64
+	writes int
+}
+
+func (s *sink) Header() http.Header { return s.h }
+func (s *sink) WriteHeader(c int)   { s.codes = append(s.codes, c) }
+func (s *sink) Write(b []byte) (int, error) {
+	s.bytes += int64(len(b))
+	s.writes++
+	return len(b), nil
+}
+
+var volumeChunk = make([]byte, 32<<20)
+
+func checkVolume(v Volume) (out evid.Outcome) {
+	if strconv.IntSize < 64 {
+		return out // the total does not fit an int there
+	}
+	u := &sink{h: http.Header{}}
+	w := flamego.NewResponseWriter(v.Method, u)
+	total := 0
+	for i := 0; i <= v.Writes; i++ {
+		b := volumeChunk[:v.Chunk]
+		if i == v.Writes {
+			b = volumeChunk[:v.Tail]
+		}
+		n, err := w.Write(b)
+		if n != len(b) || err != nil {
+			return fail(out, "write-result", "write %d of %d bytes returned (%d, %v); %s", i, len(b), n, err, js(v))
+		}
+		total += len(b)
+		if i == v.Writes || i%16 == 0 {
+			if int64(w.Size()) != u.bytes {
+				return fail(out, "size", "after %d writes Size() = %d, the underlying writer accepted %d body bytes; %s", i+1, w.Size(), u.bytes, js(v))
+			}
+		}
+	}
+	if v.Method == "HEAD" && u.bytes != 0 {
+		return fail(out, "head-body", "%d body bytes forwarded for HEAD; %s", u.bytes, js(v))
+	}
+	if v.Method != "HEAD" && u.bytes != int64(total) {
+		return fail(out, "forwarded", "%d of %d body bytes reached the underlying writer; %s", u.bytes, total, js(v))
+	}
+	if w.Status() != 200 || !w.Written() || len(u.codes) != 1 {
+		return fail(out, "status", "Status() = %d, Written() = %v, status lines %v; %s", w.Status(), w.Written(), u.codes, js(v))
+	}
+	out.NonTrivial = total > 1<<31-1
+	if total > 1<<32 {
+		out.Classes = append(out.Classes, "volume-beyond-2^32")
+	} else if total > 1<<31-1 {
+		out.Classes = append(out.Classes, "volume-beyond-2^31")
+	} else {
+		out.Classes = append(out.Classes, "volume-small")
+	}
+	return out
+}
+
+func TestVolume(t *testing.T) {
+	evid.Rapid(t, "volume", 60, 2000, func(t *rapid.T) {
+		v := Volume{
+			Method: []string{"GET", "POST", "HEAD"}[rapid.IntRange(0, 2).Draw(t, "method")],
+			Chunk:  []int{32 << 20, 32 << 20, 1 << 20, 1<<24 + 1}[rapid.IntRange(0, 3).Draw(t, "chunk")],
+			Tail:   rapid.IntRange(0, 3).Draw(t, "tail"),
+		}
+		// totals around 2^31 and 2^32, and small ones
+		target := []int{1 << 31, 1 << 31, 1 << 32, 1<<32 + 1<<31, 1 << 26}[rapid.IntRange(0, 4).Draw(t, "target")]
+		v.Writes = target/v.Chunk + rapid.IntRange(-1, 2).Draw(t, "extra")
+		if v.Writes < 1 {
+			v.Writes = 1
+		}
+		evid.Run(t, "volume", v, func() evid.Outcome { return checkVolume(v) })
+	})
+}
+
 func TestReplay(t *testing.T) {
 	evid.Replay(t, map[string]evid.ReplayFn{
+		"volume": func(raw json.RawMessage) evid.Outcome {
+			var v Volume
+			if err := json.Unmarshal(raw, &v); err != nil {
+				panic(err)
+			}
+			return checkVolume(v)
+		},
 		"history": func(raw json.RawMessage) evid.Outcome {
 			var c Case
 			if err := json.Unmarshal(raw, &c); err != nil {
